@@ -9,6 +9,25 @@ T_TOOLS = 'T10 Verus 0.2026.09.13, Z3, rustc; machine integers are checked (not 
 T_RPO = 'T4 RPO hash (miden-crypto hash_elements / merge_in_domain) uninterpreted; collision resistance NOT assumed'
 
 PROPS = {
+    'C02': {
+        'level': 'proof',
+        'units': ['glue_proof', 'air_boundary', 'serde_core'],
+        'kani': [],
+        'trusted_base': [T_FELT, T_TOOLS, 'T6 winterfell: verify_proof soundness (stark_ok uninterpreted), StarkProof codec, Assertion::single, security_level', 'StackOutputs::stack_top contract (iterator chain) assumed'],
+        'not_decided': ['cryptographic soundness of the STARK verifier, rejection of corrupted/truncated proof bytes beyond the tag byte (winterfell)', 'aux-segment boundary values (overflow table init/final products) and range-checker assertions', 'PublicInputs::to_elements (Fiat-Shamir seeding) ordering'],
+        'sample_obligations': ['C02/glue_proof/lib::verify#ensures.0 : Ok ==> stark_ok(proof, PublicInputs{program_info, stack_inputs, stack_outputs}, tag(hash_fn), accept_set(tag))',
+                               'C02/air_boundary/stack::get_assertions_first_step#ensures.0 : result == old ++ 16 input assertions (zero padded) ++ [b0 = depth, b1 = overflow address] at step 0',
+                               'C02/serde_core/ExecutionProof::from_bytes#ensures : short input or unknown hash tag ==> Err'],
+    },
+    'C01': {
+        'level': 'proof',
+        'units': ['glue_proof'],
+        'kani': [],
+        'trusted_base': [T_FELT, T_TOOLS, 'T6 winterfell prover completeness / verifier acceptance (assumed)', 'C03 (honest trace satisfies the AIR) is a separate property'],
+        'not_decided': ['completeness of the STARK protocol (winterfell)', 'body of prover::prove (generic dispatch over hashers, cfg-gated instrumentation): out of Verus reach', 'reported security level arithmetic (inside winterfell)', 'proof byte round trip beyond the hash-function tag'],
+        'sample_obligations': ['C01/glue_proof/ProvingOptions::with_96_bit_security#ensures.0 : the preset (hash_fn, options) is a member of verify()\'s accept set for that hash_fn',
+                               'C01/glue_proof/ExecutionProver as Prover::get_pub_inputs#ensures.0 : statement == (trace.program_info, given inputs, given outputs)'],
+    },
     'C19': {
         'level': 'proof',
         'units': ['serde_core'],
